@@ -37,7 +37,7 @@ checks = {
    text='Same simulation biased towards START/STOP/GO_ERROR sequences; probes snapshot run_number and the four run timestamps; oracles: number absent before and present from the non-negative before_START_ACTIVITY hooks to the end of the stopping transition, constant during the run, timestamps set at most once and ordered, nothing of the previous run visible at the start of the next, end timestamps set however the run ended and unchanged between two runs (run number allocation made to fail at a START - Consul down, CAS refused - begins no run). A quarter of the workers run the whole-core simulation instead (real task-transition bodies and teardown, hook tasks): the published run events must show exactly two end-of-run events per run however it ends.',
    note='One real Environment with an injected task-transition body (verif hook) and a probe plugin registered through the public integration API; callers follow the API rule (GO_ERROR after a failed request, forced ERROR if refused) as core/server.go does; teardown and the RPC layer are outside this harness; hook tasks are not generated (calls only).'),
  "C02": dict(harness="hcore", design="§6 C02",
-   text="Whole-core simulation (one OS process per run): the real RPC methods, environment manager and FSM, task manager, scheduler handlers, command queue, workflow loading, Consul client and mesos-go controller against simmesos/simconsul; per task and per transition an outcome is drawn (ok, error reply staying / going to ERROR, silent, undeliverable, dies; for DEPLOY: starts, late, fails, never). Oracle: each API request succeeds iff every critical active task acknowledged, destination never reported and error returned otherwise, environment in ERROR afterwards, every request returns; crashes of the core are violations.",
+   text="Whole-core simulation (one OS process per run): the real RPC methods, environment manager and FSM, task manager, scheduler handlers, command queue, workflow loading, Consul client and mesos-go controller against simmesos/simconsul; per task and per transition an outcome is drawn (ok, error reply staying / going to ERROR, silent, undeliverable, dies; for DEPLOY: starts, late, fails, never); one in twelve goroutine starts of the core is held back for a drawn simulated delay (a thread late to be scheduled). Oracle: each API request succeeds iff every critical active task acknowledged, destination never reported and error returned otherwise, environment in ERROR afterwards, every request returns; crashes of the core are violations.",
    note="simmesos is a model written from the Mesos scheduler API documentation; RPC methods are invoked on the RpcServer object (no gRPC transport); violations are confirmed by replaying the recorded tape in a fresh process (not shrunk)."),
  "C03": dict(harness="hcore", design="§6 C03",
    text='Whole-core simulation: an environment in CONFIGURED or RUNNING, a victim task and a failure kind (TASK_FAILED/LOST/KILLED, executor or agent FAILURE, TASK_INTERNAL_ERROR) injected at a drawn instant, idle or racing with a transition; oracle: a critical victim drives the environment to ERROR within 150 simulated s and the end of the run is recorded; a non-critical victim changes nothing beyond what clients asked for.',
